@@ -763,6 +763,40 @@ func (x *Exec) special(fr *frame, st *State, f *ssa.Function, full string, args 
 // pureCall: result is an uninterpreted function of the argument leaves and of
 // the heap arrays type-reachable from the arguments.
 func (x *Exec) pureCall(f *ssa.Function, args []Val, st *State) []Val {
+	if f.String() == "strconv.Atoi" && len(args) == 1 && len(args[0].L) == 1 {
+		// a library function applied to a literal is evaluated
+		if lit, ok := x.c.StrLitValue(args[0].L[0]); ok {
+			if n, err := strconv.Atoi(lit); err == nil {
+				return []Val{{T: types.Typ[types.Int], L: []Term{BVLit(int64(n), 64)}},
+					zeroVal(x.c, f.Signature.Results().At(1).Type())}
+			}
+		}
+	}
+	if f.String() == "strconv.Atoi" && !x.inAtoiAxioms {
+		// ... and what it yields for the numeric literals of the program is known
+		x.inAtoiAxioms = true
+		for _, lit := range x.c.StrLits() {
+			n, err := strconv.Atoi(lit)
+			if err != nil || x.atoiAxiom[lit] {
+				continue
+			}
+			if x.atoiAxiom == nil {
+				x.atoiAxiom = map[string]bool{}
+			}
+			x.atoiAxiom[lit] = true
+			r := x.pureCallRaw(f, []Val{{T: types.Typ[types.String], L: []Term{x.c.StrLit(lit)}}}, st)
+			z := zeroVal(x.c, f.Signature.Results().At(1).Type())
+			x.c.Assume(Eq(r[0].L[0], BVLit(int64(n), 64)))
+			for i := range z.L {
+				x.c.Assume(Eq(r[1].L[i], z.L[i]))
+			}
+		}
+		x.inAtoiAxioms = false
+	}
+	return x.pureCallRaw(f, args, st)
+}
+
+func (x *Exec) pureCallRaw(f *ssa.Function, args []Val, st *State) []Val {
 	byValue, noHeap := false, false
 	if ct := x.e.cs.Funcs[funcPkgPath(f)+"::"+funcRelName(f)]; ct != nil {
 		byValue, noHeap = ct.PureValue, ct.PureRef
@@ -1149,6 +1183,14 @@ func (x *Exec) applyContract(ct *Contract, f *ssa.Function, sig *types.Signature
 		}
 	}
 	res := x.freshResults(sig, sanitize(ct.Name))
+	if ct.Fresh {
+		// an allocating library function: slice results have backing stores of their own
+		for k := range res {
+			if _, isSlice := res[k].T.Underlying().(*types.Slice); isSlice && len(res[k].L) == 3 {
+				res[k].L[0] = x.freshSliceID(st)
+			}
+		}
+	}
 	// the callee's universally quantified constants are instantiated with the
 	// caller's quantified constants and with the call's arguments of the same type
 	for _, inst := range x.forallInstances(ct, names) {
